@@ -22,7 +22,7 @@ PROPS = {
 PROPS["C02"] = {
     "level": "exploration",
     "rule": ("each run opens k in 2..6 logical connections (two channels, one physical session) in driver-chosen order with modes "
-             "active / idle / paused-application-reader / paused-target-reader, payloads, write partitions, socket-buffer bounds, delivery "
+             "active / idle / paused-application-reader / paused-target-reader / closing in mid-transfer (either side), payloads, write partitions, socket-buffer bounds, delivery "
              "chunking and (1 run in 8) a write-completion stall on the client's physical link while a stream is being opened; "
              "non-trivial = all non-paused connections completed while the others were still open (>= 2 open at once); distinct = schedule shapes"),
     "probes": ["concurrent_worlds_completed", "fault_write_stall_armed", "fault_segmentation"],
